@@ -174,6 +174,9 @@ pub fn profile(prop: Prop, thorough: bool) -> Profile {
             p.w.lookup = 3;
         }
         C05 => {
+            // huge arguments too: an overflow path that ends in unreachable_unchecked is UB
+            p.huge = true;
+            p.w.reserve = 5;
             p.w.retain = 7;
             p.w.drain_filter = 7;
             p.w.entry = 14;
@@ -793,6 +796,11 @@ pub fn c14_case_strategy(thorough: bool) -> BoxedStrategy<Case> {
             // steering keys are fresh keys: remove them again (removals move nothing)
             ops.push(Op::RemoveFresh { s: 0 });
             ops.push(Op::RemoveFresh { s: 1 });
+            if junk == 3 {
+                // a third way to reach the same contents: clone_from the other history (which may be
+                // mid-resize and hash differently)
+                ops.push(Op::CloneFrom { dst: 0, src: 1 });
+            }
             ops.push(Op::EqCheck);
             ops.push(Op::DebugCheck { s: 0 });
             ops.push(Op::DebugCheck { s: 1 });
